@@ -10,7 +10,10 @@ RULE = ("integer-coordinate tree sequences: msprime (haploid and ploidy=2 indivi
         "historical and internal samples) through structural mutators (cut part of an edge, delete an interval, "
         "isolate a sample over an interval = missing data, keep_unary subset) and msprime-free random DAG tables "
         "(polytomies, several roots, isolated nodes, diploid individuals), plus extra mutations on arbitrary nodes "
-        "(above roots, on isolated nodes, beyond the last edge, several per site); x plain / size-biased / custom "
+        "(above roots, on isolated nodes, beyond the last edge, several per site, 40% exactly on tree breakpoints); "
+        "tied node times; ~40% of the inputs decorated by gen.exotic (extra flag bits, ALL nodes renumbered, root "
+        "mutations, mutation-free sites incl. num_sites == num_mutations, unknown times, arbitrary states, "
+        "populations); x plain / size-biased / custom "
         "sample mask; x random sets of unphased individuals. Non-trivial = at least one edge and one mutation")
 ASSUME = ["tskit's tables satisfy valid_tablesb (checked inside Coq on every input; proved to imply the "
           "theorems' hypotheses)",
@@ -137,6 +140,9 @@ def make_item(rng, jit=False):
         nodes = [int(u) for ind in ts.individuals() for u in ind.nodes]
         if nodes:
             ts = S.add_mutations(rng, ts, k=rng.randint(1, 6), nodes=nodes)
+    if ts.num_mutations and rng.random() < 0.25:
+        ts = S.site_mutation_coincidence(rng, ts)      # num_sites == num_mutations, map not one-to-one
+        kind += "+sites=muts"
     n = ts.num_nodes
     r = rng.random()
     smp = S.is_sample_list(ts)
@@ -180,6 +186,9 @@ def oracle_counts(ctx, ts, mask, kind, got):
         elif not same_nums(g[1], want[1]):
             ctx.oracle_fail("count_mutations:%s:edge_spans" % label,
                             "edges_span %r, trees say %r" % (g[1], want[1]), rp)
+    if got.get("repeat_ok") is False:
+        ctx.oracle_fail("count_mutations:repeat-call", "second call on the same objects (size_biased=np.bool_(True)) "
+                        "differs from the first, or the caller's mask was modified", rp)
     g = got.get("span_array")
     if g is not None:
         want = S.ref_tallies(ts, mask=smp, size_biased=False)
@@ -237,6 +246,18 @@ def run_impl(ts, mask, unphased):
             got[label] = "assert"
     got["span_array"] = impl_span_array(ts)
     got["blocks"] = impl_blocks(ts, unphased)
+    # same objects again, options as numpy scalars: identical results, caller's mask untouched
+    import tsdate.rescaling as rescaling
+    m = np.array(mask, dtype=bool)
+    keep = m.copy()
+    try:
+        with S.time_limit(30):
+            st, me = rescaling.count_mutations(ts, node_is_sample=m, size_biased=np.bool_(True))
+        again = ([float(x) for x in st[:, 0]], [float(x) for x in st[:, 1]], [int(x) for x in me])
+    except AssertionError:
+        again = "assert"
+    got["repeat_ok"] = bool(again == got["mask_size_biased"] and np.array_equal(m, keep)
+                            and impl_blocks(ts, unphased) == got["blocks"])
     return got
 
 
